@@ -28,6 +28,23 @@ type Case struct {
 	Inputs [][]KV `json:"inputs,omitempty"`
 }
 
+// diffCmp is consistent but returns magnitudes (a-b scaled), not just -1/0/1: the contract only fixes the sign.
+type diffCmp struct{}
+
+func (diffCmp) Compare(a, b int) int { return (a - b) * 3 }
+
+// memCmp orders byte strings like bytes.Compare but returns the difference of the first differing bytes (memcmp style).
+type memCmp struct{}
+
+func (memCmp) Compare(a, b []byte) int {
+	for i := 0; i < len(a) && i < len(b); i++ {
+		if a[i] != b[i] {
+			return int(a[i]) - int(b[i])
+		}
+	}
+	return len(a) - len(b)
+}
+
 type revCmp struct{}
 
 func (revCmp) Compare(a, b int) int {
@@ -41,17 +58,17 @@ func (revCmp) Compare(a, b int) int {
 
 func Gen() *rapid.Generator[Case] {
 	return rapid.Custom(func(t *rapid.T) Case {
-		kind := rapid.SampledFrom([]string{"skip-int", "skip-int-rev", "skip-str", "skip-bytes", "pq", "pq"}).Draw(t, "kind")
+		kind := rapid.SampledFrom([]string{"skip-int", "skip-int-rev", "skip-int-diff", "skip-str", "skip-bytes", "skip-bytes-memcmp", "pq", "pq"}).Draw(t, "kind")
 		c := Case{Kind: kind}
 		maxN := 60
 		if h.Thorough() {
 			maxN = 2000
 		}
 		switch kind {
-		case "skip-int", "skip-int-rev":
+		case "skip-int", "skip-int-rev", "skip-int-diff":
 			n := rapid.IntRange(0, maxN).Draw(t, "n")
 			c.IntKeys = rapid.SliceOfNDistinct(rapid.IntRange(-3*n-3, 3*n+3), n, n, rapid.ID[int]).Draw(t, "keys")
-		case "skip-str", "skip-bytes":
+		case "skip-str", "skip-bytes", "skip-bytes-memcmp":
 			n := rapid.IntRange(0, maxN/2).Draw(t, "n")
 			ks := rapid.SliceOfN(gen.KeyGen(true, 40), n, n).Draw(t, "keys")
 			seen := map[string]bool{}
@@ -94,10 +111,7 @@ func Enumerate(emit func(Case) bool) {
 		var rec func(k int) bool
 		rec = func(k int) bool {
 			if k == n {
-				kind := "skip-int"
-				if n%2 == 0 {
-					kind = "skip-int-rev"
-				}
+				kind := []string{"skip-int", "skip-int-rev", "skip-int-diff"}[n%3]
 				return emit(Case{Kind: kind, IntKeys: append([]int{}, base...)})
 			}
 			for i := k; i < n; i++ {
@@ -122,6 +136,10 @@ func Prop(c Case, x *h.Ctx) *h.Violation {
 		return checkSkip(x, c.IntKeys, skiplist.Comparator[int](skiplist.OrderedComparator[int]{}), intGaps(c.IntKeys), func(a int) string { return fmt.Sprint(a) })
 	case "skip-int-rev":
 		return checkSkip(x, c.IntKeys, skiplist.Comparator[int](revCmp{}), intGaps(c.IntKeys), func(a int) string { return fmt.Sprint(a) })
+	case "skip-int-diff":
+		return checkSkip(x, c.IntKeys, skiplist.Comparator[int](diffCmp{}), intGaps(c.IntKeys), func(a int) string { return fmt.Sprint(a) })
+	case "skip-bytes-memcmp":
+		return checkSkip(x, c.ByteKeys, skiplist.Comparator[[]byte](memCmp{}), probeSet(c.ByteKeys), func(a []byte) string { return fmt.Sprintf("%x", a) })
 	case "skip-str":
 		ks := make([]string, len(c.ByteKeys))
 		var ps []string
